@@ -12,7 +12,12 @@
 
 typedef struct { int fam; uint64_t idx; } rep;
 static rep REPS[120]; static int n_reps;
-static const char *MORE_CALL = "nc: module\nimport f\npf: proto i64, i64:a, i64:b, p:m, p:q, d:x, d:y\nexport gc\ngc: func i64, i64:a, i64:b, p:m, p:q, d:x, d:y\n local i64:r\n call pf, f, r, a, b, m, q, x, y\n add r, r, 1\n ret r\nendfunc\nendmodule\n";
+static const char *MORE_CALL = "nc: module\nimport f\npf: proto i64, i64:a, i64:b, p:m, p:q, d:x, d:y\nexport gc\ngc: func i64, i64:a, i64:b, p:m, p:q, d:x, d:y\n local i64:r, i64:t, i64:u\n call pf, f, r, a, b, m, q, x, y\n add r, r, 1\n mov t, a\n"
+  /* a long tail (more program points than any f of the families) whose value cancels out in a way the optimizer does not see (no reassociation):
+     a function generated later at a higher level needs longer allocator tables than the ones before it */
+  " add t, t, 1\n add t, t, 1\n add t, t, 1\n add t, t, 1\n add t, t, 1\n add t, t, 1\n add t, t, 1\n add t, t, 1\n add t, t, 1\n add t, t, 1\n add t, t, 1\n add t, t, 1\n add t, t, 1\n add t, t, 1\n add t, t, 1\n add t, t, 1\n add t, t, 1\n add t, t, 1\n add t, t, 1\n add t, t, 1\n"
+  " add t, t, 1\n add t, t, 1\n add t, t, 1\n add t, t, 1\n add t, t, 1\n add t, t, 1\n add t, t, 1\n add t, t, 1\n add t, t, 1\n add t, t, 1\n add t, t, 1\n add t, t, 1\n add t, t, 1\n add t, t, 1\n add t, t, 1\n add t, t, 1\n add t, t, 1\n add t, t, 1\n add t, t, 1\n add t, t, 1\n"
+  " add u, a, 40\n sub t, t, u\n add r, r, t\n ret r\nendfunc\nendmodule\n";
 static const char *MORE_INL = "ni: module\nimport f\npf: proto i64, i64:a, i64:b, p:m, p:q, d:x, d:y\nexport gi\ngi: func i64, i64:a, i64:b, p:m, p:q, d:x, d:y\n local i64:r\n inline pf, f, r, a, b, m, q, x, y\n add r, r, 2\n ret r\nendfunc\nendmodule\n";
 enum { O_GEN, O_LEVEL0, O_LEVEL3, O_OUTPUT, O_INTERP, O_CALL, O_MORE_CALL, O_MORE_INL, NOPS };
 static const char *ONAME[] = {"gen(f)", "level(0)", "level(3)", "output(f)", "interp(f)", "call(f->addr)", "link(module calling f)", "link(module inlining f)"};
@@ -26,7 +31,7 @@ static char *REF_TEXT; static size_t REF_TEXT_LEN;          /* text of f after M
 typedef struct { int ok; int low32; int64_t ret; uint64_t mem, log; } robs;
 static robs EXPECT[4]; static int n_inputs;                  /* reference behaviour of f on a few inputs */
 
-typedef struct { mh_ctx mc; cfg c; MIR_item_t f; int level, generated, more_call, more_inl, dead, step_in; void *gen_addr; void *addr0; } world;
+typedef struct { mh_ctx mc; cfg c; MIR_item_t f; int level, generated, gen_level, more_call, more_inl, dead, step_in; void *gen_addr; void *addr0; } world;
 
 static void set_input (pinput in, mh_args *a) {
   memset (a, 0, sizeof *a); mh_mem_reset (); mh_log_reset ();
@@ -53,7 +58,7 @@ static void *w_fresh (void *cfgp) {
     MIR_load_module (ctx, m); for (int i = 0; i < mh_n_exts; i++) MIR_load_external (ctx, mh_exts[i].name, mh_exts[i].addr);
     MIR_gen_init (ctx); w->mc.gen_inited = 1; MIR_gen_set_optimize_level (ctx, 2);
     MIR_link (ctx, w->c.start == 0 ? MIR_set_interp_interface : w->c.start == 1 ? MIR_set_gen_interface : MIR_set_lazy_gen_interface, NULL);
-    w->generated = w->c.start == 1; w->addr0 = w->f->addr;
+    w->generated = w->c.start == 1; w->gen_level = 2; w->addr0 = w->f->addr;
   } else w->dead = 1;
   mh_arm (0);
   if (w->dead) failh ("mir-error", "initial load/link failed: %s", w->mc.errmsg);
@@ -80,12 +85,12 @@ static int w_apply (void *p, int op, int step, int check) {
   case O_GEN: { void *a = NULL; mh_arm (1); if (setjmp (mh_err_jb) == 0) a = MIR_gen (ctx, w->f); else errored = 1; mh_arm (0);
       if (errored) { if (check) failh ("mir-error", "MIR_gen raised: %s", w->mc.errmsg); w->dead = 1; return 1; }
       if (check && w->generated && w->gen_addr != NULL && a != w->gen_addr) failh ("gen-address-changed", "a repeated MIR_gen returned %p, the first one %p", a, w->gen_addr);
-      if (w->gen_addr == NULL) w->gen_addr = a; w->generated = 1; break; }
+      if (w->gen_addr == NULL) w->gen_addr = a; if (!w->generated) w->gen_level = w->level; w->generated = 1; break; }
   case O_LEVEL0: case O_LEVEL3: { int l = op == O_LEVEL0 ? 0 : 3; if (w->level == l) return 0; MIR_gen_set_optimize_level (ctx, l); w->level = l; break; }
   case O_OUTPUT: break; /* the text is compared after every operation anyway */
   case O_INTERP: if (!w->generated) return 0; /* the property speaks of interpretation after generation; interpreting first and generating later is outside it */
     if (check) check_run (w, w->f, 1, 0, "MIR_interp(f)"); else { /* replay: the interpreter caches per-function data, keep the side effect */ mh_args a; MIR_val_t r[2]; set_input (FAM->input (FIDX, 0), &a); mh_engine s = w->mc.engine; w->mc.engine = E_INTERP; if (EXPECT[0].ok) mh_call (&w->mc, w->f, &a, r); w->mc.engine = s; } break;
-  case O_CALL: if (w->c.start == 0 && !w->generated) return 0; /* would interpret first (see above) */ if (w->c.start == 2) w->generated = 1; /* lazy: first call generates */
+  case O_CALL: if (w->c.start == 0 && !w->generated) return 0; /* would interpret first (see above) */ if (w->c.start == 2) { if (!w->generated) w->gen_level = w->level; w->generated = 1; } /* lazy: first call generates */
     if (check) check_run (w, w->f, 0, 0, "call through f->addr"); else { mh_args a; MIR_val_t r[2]; set_input (FAM->input (FIDX, 0), &a); mh_engine s = w->mc.engine; w->mc.engine = E_GEN2; if (EXPECT[0].ok) mh_call (&w->mc, w->f, &a, r); w->mc.engine = s; } break;
   case O_MORE_CALL: case O_MORE_INL: { int inl = op == O_MORE_INL; if (inl ? w->more_inl : w->more_call) return 0;
       mh_arm (1); if (setjmp (mh_err_jb) == 0) { MIR_load_module (ctx, module_named (&w->mc, inl ? "ni" : "nc")); MIR_link (ctx, w->c.start == 0 ? MIR_set_interp_interface : w->c.start == 1 ? MIR_set_gen_interface : MIR_set_lazy_gen_interface, NULL); } else errored = 1; mh_arm (0);
@@ -103,7 +108,7 @@ static int w_apply (void *p, int op, int step, int check) {
   return 1;
 }
 static uint64_t w_canon (void *p) {
-  world *w = p; uint64_t h = 31; h = vp_hash_u64 (h, w->dead); h = vp_hash_u64 (h, w->level); h = vp_hash_u64 (h, w->more_call | w->more_inl << 1);
+  world *w = p; uint64_t h = 31; h = vp_hash_u64 (h, w->dead); h = vp_hash_u64 (h, w->level); h = vp_hash_u64 (h, w->generated ? 10 + w->gen_level : 0); /* the level f was generated at decides the size of generator tables later functions meet */ h = vp_hash_u64 (h, w->more_call | w->more_inl << 1);
   h = vp_hash_u64 (h, w->f && w->f->u.func->machine_code != NULL); h = vp_hash_u64 (h, w->f && w->f->data != NULL);
   size_t l; char *t = item_text (&w->mc, w->f, &l); h = vp_hash_u64 (h, l == REF_TEXT_LEN && memcmp (t, REF_TEXT, l) == 0); free (t);
   return h;
